@@ -119,22 +119,30 @@ def _(E, p):
     from grid.onedgrid import GaussChebyshev, GaussLaguerre, UniformInteger
     from grid import rtransform as rt
 
+    from grid.basegrid import OneDGrid
+
     x = E.arr("x", np.linspace(-0.9, 0.9, 11))
     xp = E.arr("xpos", np.linspace(0.0, 9.0, 10))
     out = []
     sel = p % 3
+    # caller-built 1-D grids (their arrays are the caller's) handed to transform_1d_grid
+    og_fin = OneDGrid(E.arr("og_points", np.linspace(-0.95, 0.95, 9)), E.arr("og_weights", np.full(9, 0.2)), (-1.0, 1.0))
+    og_inf = OneDGrid(E.arr("og2_points", np.arange(8, dtype=float)), E.arr("og2_weights", np.ones(8)), (0.0, np.inf))
     if sel == 0:
         tfs = [rt.BeckeRTransform(0.1, 1.2), rt.LinearFiniteRTransform(0.2, 5.0), rt.MultiExpRTransform(0.1, 1.1), rt.KnowlesRTransform(0.1, 1.3, 2), rt.HandyRTransform(0.1, 1.3, 2), rt.HandyModRTransform(0.1, 10.0, 2)]
         for tf in tfs:
             r = tf.transform(x)
             out += [r, tf.deriv(x), tf.deriv2(x), tf.deriv3(x), tf.inverse(E.arr("r_" + type(tf).__name__, r))]
             out.append(tf.transform_1d_grid(GaussChebyshev(7)))
+            out.append(tf.transform_1d_grid(og_fin))
     elif sel == 1:
         tfs = [rt.LinearInfiniteRTransform(0.1, 10.0), rt.ExpRTransform(0.1, 10.0), rt.PowerRTransform(0.01, 10.0), rt.HyperbolicRTransform(0.5, 0.02), rt.IdentityRTransform()]
         for tf in tfs:
             r = tf.transform(xp)
             out += [r, tf.deriv(xp), tf.deriv2(xp), tf.deriv3(xp), tf.inverse(E.arr("r_" + type(tf).__name__, r))]
             out.append(tf.transform_1d_grid(UniformInteger(8)))
+            if type(tf).__name__ != "HyperbolicRTransform":
+                out.append(type(tf)(*([0.1, 10.0] if type(tf).__name__ != "IdentityRTransform" else [])).transform_1d_grid(og_inf))
     else:
         tf = rt.InverseRTransform(rt.BeckeRTransform(0.1, 1.2))
         r = E.arr("rr", np.linspace(0.3, 4.0, 9))
